@@ -52,7 +52,7 @@ def main(ctx):
     lim = int(os.environ.get("VERIF_BPE_LIMIT", "0"))   # debugging aid (mutation experiments): stratified subset
     if lim and len(cases) > lim:
         cases = cases[::len(cases) // lim]
-    ctx.correspond("Tokenizer::encode/decode", GROUP, REQ, cases, show="show", shard=ctx.n(10, 60),
+    ctx.correspond("Tokenizer::encode/decode", GROUP, REQ, cases, show="show", shard=ctx.n(10, 20),
                    fn_name="Bpe.ModelBpe.{byte_to_char,bpe_new,tk_encode,text_for_token,decode}")
     if failed and not ctx.violations:
         ctx.proof_broken(failed, "all correspondence cases of this run")
